@@ -123,4 +123,71 @@ theorem run_collect {β : Type} (hd : Handlers) (b : Behaviour β) (m : Method)
     · rw [ht1, hd1]
     · rw [ht2, hd1]
 
+/-! ### restarting one stub -/
+
+/-- Configure reads nothing of the mutable state and overwrites both timeouts: its whole
+    outcome depends on the previous state through the collected sync chunks only -/
+theorem dispatch_configure_indep {β : Type} (hd : Handlers) (b : Behaviour β) (d d' : Dyn β)
+    (h : d.syncReq = d'.syncReq) (c r v : Str) (regMs reqMs : Int) :
+    dispatch hd b d (.configure c r v regMs reqMs) = dispatch hd b d' (.configure c r v regMs reqMs) := by
+  obtain ⟨sr, a1, a2⟩ := d
+  obtain ⟨sr', a1', a2'⟩ := d'
+  simp only at h
+  subst h
+  rfl
+
+theorem dispatch_configure_syncReq {β : Type} (hd : Handlers) (b : Behaviour β) (d : Dyn β)
+    (c r v : Str) (regMs reqMs : Int) :
+    (dispatch hd b d (.configure c r v regMs reqMs)).dyn.syncReq = d.syncReq := by
+  obtain ⟨sr, a1, a2⟩ := d
+  simp only [dispatch]
+
+theorem runSession_cfg {β : Type} (st : StubState β) (s : Session β) :
+    (runSession st s).1.cfg =
+      dispatch st.handlers s.cfgB st.dyn (.configure s.config s.runtime s.version s.regMs s.reqMs) := by
+  unfold runSession
+  dsimp only
+  cases hres : (dispatch st.handlers s.cfgB st.dyn
+      (Request.configure s.config s.runtime s.version s.regMs s.reqMs)).result <;> rfl
+
+theorem dispatch_configure_eq {β : Type} (hd : Handlers) (b : Behaviour β) (d : Dyn β)
+    (c r v : Str) (regMs reqMs : Int) :
+    (dispatch hd b d (.configure c r v regMs reqMs)).calls = (configure hd b c r v).1 ∧
+    (dispatch hd b d (.configure c r v regMs reqMs)).result = (configure hd b c r v).2.map Reply.configure := by
+  simp only [dispatch]
+  cases configure hd b c r v
+  exact ⟨trivial, trivial⟩
+
+theorem runSession_indep {β : Type} (st st' : StubState β) (hh : st.handlers = st'.handlers)
+    (hs : st.dyn.syncReq = st'.dyn.syncReq) (s : Session β) : runSession st s = runSession st' s := by
+  unfold runSession
+  rw [hh, dispatch_configure_indep st'.handlers s.cfgB st.dyn st'.dyn hs]
+
+theorem runSession_state {β : Type} (st : StubState β) (s : Session β) :
+    (runSession st s).2.handlers = st.handlers ∧
+    (st.dyn.syncReq = none → (runSession st s).2.dyn.syncReq = none) := by
+  unfold runSession
+  dsimp only
+  cases hres : (dispatch st.handlers s.cfgB st.dyn
+      (Request.configure s.config s.runtime s.version s.regMs s.reqMs)).result with
+  | error e => exact ⟨rfl, fun h => by simp only [dispatch_configure_syncReq, h]⟩
+  | ok r => exact ⟨rfl, fun _ => rfl⟩
+
+theorem runSessions_state {β : Type} (st : StubState β) (ss : List (Session β)) :
+    (runSessions st ss).2.handlers = st.handlers ∧
+    (st.dyn.syncReq = none → (runSessions st ss).2.dyn.syncReq = none) := by
+  induction ss generalizing st with
+  | nil => exact ⟨rfl, id⟩
+  | cons s rest ih =>
+    have h1 := runSession_state st s
+    have h2 := ih (runSession st s).2
+    simp only [runSessions]
+    exact ⟨h2.1.trans h1.1, fun h => h2.2 (h1.2 h)⟩
+
+theorem runSessions_append {β : Type} (st : StubState β) (pre : List (Session β)) (s : Session β) :
+    (runSessions st (pre ++ [s])).1 = (runSessions st pre).1 ++ [(runSession (runSessions st pre).2 s).1] := by
+  induction pre generalizing st with
+  | nil => simp [runSessions]
+  | cons p rest ih => simp [runSessions, ih]
+
 end Nri.Lemmas.Stub
